@@ -12,7 +12,7 @@ def run(ctx):
     ctx.audit("Slock.Properties.C17", THEOREMS)
     if ctx.tier == "thorough":
         ctx.leanchecker("Slock.Properties.C17")
-    engine_common.run_engine(ctx, ["C17:"], n_quick=600, n_thorough=40000)
+    engine_common.run_engine(ctx, ["C17:"], n_quick=3000, n_thorough=60000)
     ctx.assumptions.append("KeyCount, lock-record reference counts and value-cell lifetime are checked by the monitor on the real engine (census after every op, drain, "
                            "KeyCount back to baseline after 18 s), not proved: stage 1 of the model has no lazily freed records")
     ctx.cov["rule"] = ("seeded sequences ending in an adaptive drain; census of the real managers (holders, waiters) after every operation and at every reply; "
